@@ -73,59 +73,7 @@ def check(facts, rep, tier, cfg):
                     rep.bad("C02.R1", "dispatch-payload", where, "the bytes dispatched to the stream (%s) / the sender used (%s) are not the frame's payload / the addressed slot's sender" % (sorted(roles), sorted(sroles)))
     rep.floor("C02.R1", "inbound dispatch sites", n, 1)
     # ---- R2 = S1
-    rep.rule("C02.R2", "S1: start_send only with messages taken from the outbound receiver; frames reach the wire only via the queue")
-    n = 0
-    for b in crate.bodies:
-        tr = None
-        for bi, t in b.calls():
-            c = callee(t)
-            if c and c["name"] == "start_send_unpin" and c.get("trait", "").endswith("ws::WebSocket") and not b.j.get("impl_trait", "").endswith("WebSocket"):
-                tr = tr or Tracer(facts, b)
-                it = Inter(facts)
-                n += 1
-                rep.analysed(b)
-                where = "%s (%s)" % (loc_str(t["loc"]), b.path)
-                msg = it.expand(b, it.tracer(b).operand(t["args"][1]))
-                from_q = any(x.kind == "call" and x[6] in ("poll_recv", "recv") and "UnboundedReceiver::<ws::Message>" in x[2] for x in walk(msg)) or \
-                    any(x.kind == "call" and x[6] == "poll" and "Option<ws::Message>" in x[2] for x in walk(msg))
-                direct = any(x.kind == "call" and x[6] in FRAME_CTORS for x in walk(msg))
-                if from_q and not direct:
-                    rep.ok("C02.R2", "start_send/%s" % b.path, where, "message <- outbound receiver")
-                else:
-                    rep.bad("C02.R2", "start_send/%s" % b.path, where, "a message reaches the WebSocket sink without going through the single ordered outbound queue (frames of one stream can be reordered / interleaved)")
-    rep.floor("C02.R2", "start_send sites", n, 2)
-    # a message taken off the outbound queue is always handed to the sink before the poll function returns
-    kq = 0
-    for b in crate.bodies:
-        recvs = [bi for bi, t in b.calls() if callee(t) and callee(t)["name"] == "poll_recv" and "UnboundedReceiver::<ws::Message>" in callee(t)["path"]
-                 and not b.blocks[bi]["cleanup"]]
-        if not recvs:
-            continue
-        tr = Tracer(facts, b)
-        sends = set(bi for bi, t in b.calls() if callee(t) and callee(t)["name"] == "start_send_unpin")
-        for r in recvs:
-            kq += 1
-            rep.analysed(b)
-            where = "%s (%s)" % (loc_str(b.term(r)["loc"]), b.path)
-            leak = credit_leak_after_take(facts, b, tr, r, sends)
-            if leak is None:
-                rep.ok("C02.R2", "dequeued-message-always-sent/%s" % b.path, where, "every path from Ready(Some(msg)) reaches start_send before returning")
-            else:
-                rep.bad("C02.R2", "dequeued-message-always-sent/%s" % b.path, where,
-                        "after a message has been taken off the outbound queue the function can return (%s) without handing it to the sink: "
-                        "under sink back-pressure the frame is dropped and the byte stream has a hole although the write succeeded" % loc_str(b.term(leak)["loc"]))
-    rep.floor("C02.R2", "outbound queue poll_recv sites", kq, 1)
-    qs = list(queue_sends(facts, crate))
-    # a site whose message is one of several frames (`let f = if ok { finish } else { reset }; send(f)`) counts once per frame kind
-    nqs = sum(max(1, len(ctors_in(msg))) for _b, _bi, _t, _tr, msg in qs)
-    rep.floor("C02.R2", "queue-send sites", nqs, 14 + 2 * ("std" in crate.features) + ("tokio-time" in crate.features))
-    # the receiver half is created once
-    chans = [(b, bi) for b in crate.bodies for bi, t in b.calls() if callee(t) and callee(t)["name"] == "unbounded_channel" and "ws::Message" in callee(t)["path"]]
-    if len(chans) == 1:
-        rep.ok("C02.R2", "single-outbound-queue", "%s (%s)" % (loc_str(chans[0][0].term(chans[0][1])["loc"]), chans[0][0].path), "one unbounded_channel::<Message>")
-    else:
-        rep.bad("C02.R2", "single-outbound-queue", "", "%d outbound message queues are created, expected exactly one" % len(chans))
-    # ---- R3 reader
+    check_r2_outbound(facts, rep, crate)
     rep.rule("C02.R3", "reader keeps the remainder: consume advances by amt; poll_read copies and consumes the same amount; buffer overwritten only when empty")
     for b in crate.bodies:
         if b.j.get("impl_self", {}).get("adt") != MUX:
@@ -328,3 +276,58 @@ def check(facts, rep, tier, cfg):
     whomay.check(facts, rep, "C02.S7", "C02")
     whomay.check_new_statics(facts, rep, "C02.S7", "C02")
     whomay.check_new_trait_methods(facts, rep, "C02.S7", "C02")
+
+def check_r2_outbound(facts, rep, crate):
+    rep.rule("C02.R2", "S1: start_send only with messages taken from the outbound receiver; frames reach the wire only via the queue")
+    n = 0
+    for b in crate.bodies:
+        tr = None
+        for bi, t in b.calls():
+            c = callee(t)
+            if c and c["name"] == "start_send_unpin" and c.get("trait", "").endswith("ws::WebSocket") and not b.j.get("impl_trait", "").endswith("WebSocket"):
+                tr = tr or Tracer(facts, b)
+                it = Inter(facts)
+                n += 1
+                rep.analysed(b)
+                where = "%s (%s)" % (loc_str(t["loc"]), b.path)
+                msg = it.expand(b, it.tracer(b).operand(t["args"][1]))
+                from_q = any(x.kind == "call" and x[6] in ("poll_recv", "recv") and "UnboundedReceiver::<ws::Message>" in x[2] for x in walk(msg)) or \
+                    any(x.kind == "call" and x[6] == "poll" and "Option<ws::Message>" in x[2] for x in walk(msg))
+                direct = any(x.kind == "call" and x[6] in FRAME_CTORS for x in walk(msg))
+                if from_q and not direct:
+                    rep.ok("C02.R2", "start_send/%s" % b.path, where, "message <- outbound receiver")
+                else:
+                    rep.bad("C02.R2", "start_send/%s" % b.path, where, "a message reaches the WebSocket sink without going through the single ordered outbound queue (frames of one stream can be reordered / interleaved)")
+    rep.floor("C02.R2", "start_send sites", n, 2)
+    # a message taken off the outbound queue is always handed to the sink before the poll function returns
+    kq = 0
+    for b in crate.bodies:
+        recvs = [bi for bi, t in b.calls() if callee(t) and callee(t)["name"] == "poll_recv" and "UnboundedReceiver::<ws::Message>" in callee(t)["path"]
+                 and not b.blocks[bi]["cleanup"]]
+        if not recvs:
+            continue
+        tr = Tracer(facts, b)
+        sends = set(bi for bi, t in b.calls() if callee(t) and callee(t)["name"] == "start_send_unpin")
+        for r in recvs:
+            kq += 1
+            rep.analysed(b)
+            where = "%s (%s)" % (loc_str(b.term(r)["loc"]), b.path)
+            leak = credit_leak_after_take(facts, b, tr, r, sends)
+            if leak is None:
+                rep.ok("C02.R2", "dequeued-message-always-sent/%s" % b.path, where, "every path from Ready(Some(msg)) reaches start_send before returning")
+            else:
+                rep.bad("C02.R2", "dequeued-message-always-sent/%s" % b.path, where,
+                        "after a message has been taken off the outbound queue the function can return (%s) without handing it to the sink: "
+                        "under sink back-pressure the frame is dropped and the byte stream has a hole although the write succeeded" % loc_str(b.term(leak)["loc"]))
+    rep.floor("C02.R2", "outbound queue poll_recv sites", kq, 1)
+    qs = list(queue_sends(facts, crate))
+    # a site whose message is one of several frames (`let f = if ok { finish } else { reset }; send(f)`) counts once per frame kind
+    nqs = sum(max(1, len(ctors_in(msg))) for _b, _bi, _t, _tr, msg in qs)
+    rep.floor("C02.R2", "queue-send sites", nqs, 14 + 2 * ("std" in crate.features) + ("tokio-time" in crate.features))
+    # the receiver half is created once
+    chans = [(b, bi) for b in crate.bodies for bi, t in b.calls() if callee(t) and callee(t)["name"] == "unbounded_channel" and "ws::Message" in callee(t)["path"]]
+    if len(chans) == 1:
+        rep.ok("C02.R2", "single-outbound-queue", "%s (%s)" % (loc_str(chans[0][0].term(chans[0][1])["loc"]), chans[0][0].path), "one unbounded_channel::<Message>")
+    else:
+        rep.bad("C02.R2", "single-outbound-queue", "", "%d outbound message queues are created, expected exactly one" % len(chans))
+    # ---- R3 reader
